@@ -63,16 +63,23 @@ Definition kkt_constraint_residuals (cols : list (list A)) (b Nn : list A) : lis
   map2 (fun c bk => dot c Nn - bk) cols b.
 
 (* the relaxed update: r = min_i (g N_i / max(|Nn_i - N_i|, g N_i));  N <- (1 - r) N + r Nn;
-   stopping quantity |Nn_j - N_j| / Nn_j at j = argmax Nn *)
+   stopping quantity: see stop_quantity below *)
 Definition relax_term (g n nn : A) : A :=
   let d := nabs N (nn - n) in let m := g * n in m / (if nltb N d m then m else d).
 Definition relax_factor (g : A) (Ni Nn : list A) : A :=
   match map2 (relax_term g) Ni Nn with [] => # 1%Z | f :: r => min_list N f r end.
 Definition relaxed (r : A) (Ni Nn : list A) : list A :=
   map2 (fun n nn => (# 1%Z - r) * n + r * nn) Ni Nn.
+(* stopping quantity: the largest relative Newton step among the species carrying more than 1e-7 of the most abundant
+   one (the most abundant one always included) *)
 Definition stop_quantity (Ni Nn : list A) : A :=
   let j := argmax N Nn in
-  nabs N (nth j Nn (# 0%Z) - nth j Ni (# 0%Z)) / nth j Nn (# 0%Z).
+  let nmax := nth j Nn (# 0%Z) in
+  let thr := (# 1%Z / # (10 ^ 7)%Z) * nmax in
+  let q := fun n nn => nabs N (nn - n) / nn in
+  fold_left (fun m t => let '(n, nn) := t in
+                        if nltb N thr nn then (if nltb N m (q n nn) then q n nn else m) else m)
+            (combine Ni Nn) (q (nth j Ni (# 0%Z)) nmax).
 
 Definition number_densities (T P : A) (Ni : list A) : list A := densities N U T P Ni.
 End Gibbs.
